@@ -55,7 +55,10 @@ def tlc_cmd(module, cfg, metadir, workers, extra=()):
 
 def tlc_env(env=None, xmx="4g", xss="1g"):
     e = dict(os.environ)
-    e["JAVA_TOOL_OPTIONS"] = f"-DTLA-Library={SPEC} -Xss{xss} -Xmx{xmx}"
+    # TLC unpacks its standard modules into java.io.tmpdir on every start: keep that inside the work directory
+    jtmp = os.path.join(WORK, "jtmp")
+    os.makedirs(jtmp, exist_ok=True)
+    e["JAVA_TOOL_OPTIONS"] = f"-DTLA-Library={SPEC} -Xss{xss} -Xmx{xmx} -Djava.io.tmpdir={jtmp}"
     if env:
         e.update(env)
     return e
@@ -237,6 +240,7 @@ def workdir(prop):
     d = os.path.join(WORK, prop.lower())
     shutil.rmtree(d, ignore_errors=True)
     os.makedirs(d)
+    shutil.rmtree(os.path.join(WORK, "jtmp"), ignore_errors=True)     # scratch of earlier TLC runs
     return d
 
 
